@@ -366,6 +366,8 @@ pub struct FieldDef {
     pub off: usize,
     pub len: usize,
     pub kind: Kind,
+    /// a second copy of the same logical value held by copy-connected targets (edited together)
+    pub twin: Option<usize>,
 }
 #[derive(Clone, Copy, Debug, PartialEq, Eq)]
 pub enum Kind {
@@ -381,7 +383,7 @@ pub enum Kind {
 
 pub fn fields() -> Vec<FieldDef> {
     let mut out = Vec::new();
-    let mut add = |name: &str, off: usize, len: usize, kind: Kind| out.push(FieldDef { name: name.into(), off, len, kind });
+    let mut add = |name: &str, off: usize, len: usize, kind: Kind| out.push(FieldDef { name: name.into(), off, len, kind, twin: None });
     add("asset", ASSET, 1, Kind::Amount);
     add("out1", OUT1, 1, Kind::Amount);
     add("out2", OUT2, 1, Kind::Amount);
@@ -418,6 +420,12 @@ pub fn fields() -> Vec<FieldDef> {
         add(&format!("digest[{i}]"), DIGEST + i, 1, Kind::Felt);
     }
     add("is_not_dummy", IND, 1, Kind::Flag);
+    // logical values held twice by copy-connected targets: both copies edited together, so the
+    // edit reaches the constraints behind the connection instead of dying as a copy conflict
+    out.push(FieldDef { name: "secret(both copies)".into(), off: SECN, len: 4, kind: Kind::Digest, twin: Some(SECA) });
+    out.push(FieldDef { name: "tc.lo(both copies)".into(), off: TCN, len: 1, kind: Kind::TcLimb, twin: Some(TCL) });
+    out.push(FieldDef { name: "tc.hi(both copies)".into(), off: TCN + 1, len: 1, kind: Kind::TcLimb, twin: Some(TCL + 1) });
+    out.push(FieldDef { name: "account(both copies)".into(), off: ACC, len: 4, kind: Kind::Digest, twin: Some(TO) });
     out
 }
 
